@@ -1,17 +1,713 @@
-//! (profile module)
-use crate::monitors::TxnKind;
-use crate::world::*;
+//! C11 — change events are exact edit scripts. Every live type of every replica gets a shallow
+//! observer when it first becomes visible; a shadow copy is updated *only* by applying the reported
+//! scripts and must equal what the read API shows after every transaction. Deep observers on the
+//! roots check paths and completeness.
 
-pub fn pre_txn(_w: &mut World, _n: usize) {}
-pub fn post_txn(_w: &mut World, _n: usize, _kind: &TxnKind, _uid: Option<usize>) -> VResult {
+use crate::dump;
+use crate::monitors::TxnKind;
+use crate::ops::{self, Kind, Tgt};
+use crate::world::*;
+use std::collections::{BTreeMap, HashMap, HashSet};
+use std::sync::{Arc, Mutex};
+use yrs::types::{Change, Delta, EntryChange, PathSegment};
+use yrs::{
+    Any, Array, ArrayRef, DeepObservable, Map, MapRef, Observable, OffsetKind, Out, ReadTxn, SharedRef, Subscription, TextRef, Transact, Xml,
+    XmlElementRef, XmlFragment, XmlFragmentRef, XmlOut, XmlTextRef,
+};
+
+type AttrMap = BTreeMap<String, String>;
+
+#[derive(Clone, Debug, PartialEq)]
+pub struct SUnit {
+    pub ch: Option<char>,
+    pub embed: Option<String>,
+    pub attrs: AttrMap,
+}
+
+#[derive(Clone, Debug, PartialEq)]
+pub enum Shadow {
+    Text { units: Vec<SUnit>, attrs: AttrMap },
+    Seq { items: Vec<String>, attrs: AttrMap },
+    Map { entries: AttrMap },
+}
+
+#[derive(Clone, Debug)]
+pub enum DeltaRec {
+    Ins(Vec<SUnit>),
+    InsItems(Vec<String>),
+    Del(u32),
+    Ret(u32, Option<Vec<(String, Option<String>)>>),
+}
+
+#[derive(Clone, Debug)]
+pub enum KeyRec {
+    Inserted(String),
+    Updated(String, String),
+    Removed(String),
+}
+
+#[derive(Clone, Debug)]
+pub struct EvRec {
+    pub tgt: Tgt,
+    pub delta: Vec<DeltaRec>,
+    pub keys: Vec<(String, KeyRec)>,
+}
+
+#[derive(Clone, Debug)]
+pub struct DeepRec {
+    pub root: Tgt,
+    pub target: Tgt,
+    pub path: Vec<Result<String, u32>>,
+}
+
+#[derive(Default)]
+pub struct EvNode {
+    pub shadows: HashMap<Tgt, (Kind, Shadow)>,
+    pub subs: Vec<Subscription>,
+    pub queue: Arc<Mutex<Vec<EvRec>>>,
+    pub deep: Arc<Mutex<Vec<DeepRec>>>,
+    pub deep_calls: Arc<Mutex<Vec<Tgt>>>,
+}
+
+#[derive(Default)]
+pub struct EventsState {
+    pub nodes: Vec<EvNode>,
+}
+
+fn val_id<T: ReadTxn>(txn: &T, o: &Out) -> String {
+    match o {
+        Out::Any(a) => dump::any_str(a),
+        Out::YText(t) => format!("{:?}", Tgt::from_branch_id(t.hook().id())),
+        Out::YArray(t) => format!("{:?}", Tgt::from_branch_id(t.hook().id())),
+        Out::YMap(t) => format!("{:?}", Tgt::from_branch_id(t.hook().id())),
+        Out::YXmlElement(t) => format!("{:?}", Tgt::from_branch_id(t.hook().id())),
+        Out::YXmlFragment(t) => format!("{:?}", Tgt::from_branch_id(t.hook().id())),
+        Out::YXmlText(t) => format!("{:?}", Tgt::from_branch_id(t.hook().id())),
+        other => {
+            let mut s = String::new();
+            dump::dump_out(txn, other, &mut s);
+            s
+        }
+    }
+}
+
+fn xml_id(x: &XmlOut) -> String {
+    match x {
+        XmlOut::Element(e) => format!("{:?}", Tgt::from_branch_id(e.hook().id())),
+        XmlOut::Fragment(e) => format!("{:?}", Tgt::from_branch_id(e.hook().id())),
+        XmlOut::Text(e) => format!("{:?}", Tgt::from_branch_id(e.hook().id())),
+    }
+}
+
+fn attrs_of(a: Option<&yrs::types::Attrs>) -> AttrMap {
+    let mut m = AttrMap::new();
+    if let Some(a) = a {
+        for (k, v) in a.iter() {
+            if !matches!(v, Any::Null) {
+                m.insert(k.to_string(), dump::any_str(v));
+            }
+        }
+    }
+    m
+}
+
+fn attr_updates(a: Option<&yrs::types::Attrs>) -> Option<Vec<(String, Option<String>)>> {
+    a.map(|a| {
+        let mut v: Vec<(String, Option<String>)> = a
+            .iter()
+            .map(|(k, v)| (k.to_string(), if matches!(v, Any::Null) { None } else { Some(dump::any_str(v)) }))
+            .collect();
+        v.sort();
+        v
+    })
+}
+
+fn units_of_out<T: ReadTxn>(txn: &T, o: &Out, attrs: &AttrMap) -> Vec<SUnit> {
+    match o {
+        Out::Any(Any::String(s)) => s
+            .chars()
+            .map(|c| SUnit {
+                ch: Some(c),
+                embed: None,
+                attrs: attrs.clone(),
+            })
+            .collect(),
+        other => vec![SUnit {
+            ch: None,
+            embed: Some(val_id(txn, other)),
+            attrs: attrs.clone(),
+        }],
+    }
+}
+
+fn text_delta<T: ReadTxn>(txn: &T, d: &[Delta]) -> Vec<DeltaRec> {
+    d.iter()
+        .map(|x| match x {
+            Delta::Inserted(o, a) => DeltaRec::Ins(units_of_out(txn, o, &attrs_of(a.as_deref()))),
+            Delta::Deleted(n) => DeltaRec::Del(*n),
+            Delta::Retain(n, a) => DeltaRec::Ret(*n, attr_updates(a.as_deref())),
+        })
+        .collect()
+}
+
+fn seq_delta<T: ReadTxn>(txn: &T, d: &[Change]) -> Vec<DeltaRec> {
+    d.iter()
+        .map(|x| match x {
+            Change::Added(v) => DeltaRec::InsItems(v.iter().map(|o| val_id(txn, o)).collect()),
+            Change::Removed(n) => DeltaRec::Del(*n),
+            Change::Retain(n) => DeltaRec::Ret(*n, None),
+        })
+        .collect()
+}
+
+fn key_recs<T: ReadTxn>(txn: &T, k: &HashMap<Arc<str>, EntryChange>) -> Vec<(String, KeyRec)> {
+    let mut v: Vec<(String, KeyRec)> = k
+        .iter()
+        .map(|(k, c)| {
+            (
+                k.to_string(),
+                match c {
+                    EntryChange::Inserted(n) => KeyRec::Inserted(val_id(txn, n)),
+                    EntryChange::Updated(o, n) => KeyRec::Updated(val_id(txn, o), val_id(txn, n)),
+                    EntryChange::Removed(o) => KeyRec::Removed(val_id(txn, o)),
+                },
+            )
+        })
+        .collect();
+    v.sort_by(|a, b| a.0.cmp(&b.0));
+    v
+}
+
+fn xml_attrs<T: ReadTxn, X: Xml>(txn: &T, x: &X) -> AttrMap {
+    x.attributes(txn).map(|(k, v)| (k.to_string(), val_id(txn, &v))).collect()
+}
+
+/// what the read API shows for one type, in shadow form
+pub fn actual<T: ReadTxn>(txn: &T, tgt: &Tgt, kind: Kind) -> Option<Shadow> {
+    let ptr = ops::resolve(txn, tgt, kind)?;
+    Some(match kind {
+        Kind::Text | Kind::XmlText => {
+            let t = TextRef::from(ptr);
+            let units = dump::text_units(txn, &t)
+                .into_iter()
+                .map(|u| SUnit {
+                    ch: u.ch,
+                    embed: None,
+                    attrs: AttrMap::new(),
+                })
+                .collect::<Vec<_>>();
+            // re-read with attribute maps and embed identities
+            use yrs::types::text::YChange;
+            use yrs::Text;
+            let mut out = Vec::new();
+            for d in t.diff(txn, YChange::identity) {
+                out.extend(units_of_out(txn, &d.insert, &attrs_of(d.attributes.as_deref())));
+            }
+            let _ = units;
+            let attrs = if kind == Kind::XmlText { xml_attrs(txn, &XmlTextRef::from(ptr)) } else { AttrMap::new() };
+            Shadow::Text { units: out, attrs }
+        }
+        Kind::Array => {
+            let a = ArrayRef::from(ptr);
+            let items: Vec<Out> = a.iter(txn).collect();
+            Shadow::Seq {
+                items: items.iter().map(|o| val_id(txn, o)).collect(),
+                attrs: AttrMap::new(),
+            }
+        }
+        Kind::XmlFragment | Kind::XmlElement => {
+            let f = XmlFragmentRef::from(ptr);
+            let ch: Vec<XmlOut> = f.children(txn).collect();
+            let attrs = if kind == Kind::XmlElement { xml_attrs(txn, &XmlElementRef::from(ptr)) } else { AttrMap::new() };
+            Shadow::Seq {
+                items: ch.iter().map(xml_id).collect(),
+                attrs,
+            }
+        }
+        Kind::Map => {
+            let m = MapRef::from(ptr);
+            Shadow::Map {
+                entries: m.iter(txn).map(|(k, v)| (k.to_string(), val_id(txn, &v))).collect(),
+            }
+        }
+    })
+}
+
+fn ulen(u: &SUnit, ok: OffsetKind) -> u32 {
+    match u.ch {
+        Some(c) => match ok {
+            OffsetKind::Bytes => c.len_utf8() as u32,
+            OffsetKind::Utf16 => c.len_utf16() as u32,
+        },
+        None => 1,
+    }
+}
+
+fn apply_keys(map: &mut AttrMap, keys: &[(String, KeyRec)]) -> Result<(), String> {
+    for (k, c) in keys {
+        match c {
+            KeyRec::Inserted(n) => {
+                if let Some(old) = map.get(k) {
+                    return Err(format!("key {:?} reported as Inserted({}) but the observer had seen value {}", k, n, old));
+                }
+                map.insert(k.clone(), n.clone());
+            }
+            KeyRec::Updated(o, n) => {
+                match map.get(k) {
+                    Some(old) if old == o => {}
+                    other => return Err(format!("key {:?} reported as Updated({} -> {}) but the observer had seen {:?}", k, o, n, other)),
+                }
+                map.insert(k.clone(), n.clone());
+            }
+            KeyRec::Removed(o) => {
+                match map.get(k) {
+                    Some(old) if old == o => {}
+                    other => return Err(format!("key {:?} reported as Removed({}) but the observer had seen {:?}", k, o, other)),
+                }
+                map.remove(k);
+            }
+        }
+    }
     Ok(())
 }
-pub fn at_quiescence(_w: &mut World) -> VResult {
+
+/// applies one reported script to a shadow copy
+pub fn apply_event(sh: &mut Shadow, e: &EvRec, ok: OffsetKind) -> Result<(), String> {
+    match sh {
+        Shadow::Text { units, attrs } => {
+            let mut pos = 0usize;
+            for d in e.delta.iter() {
+                match d {
+                    DeltaRec::Ins(us) => {
+                        for (i, u) in us.iter().enumerate() {
+                            units.insert(pos + i, u.clone());
+                        }
+                        pos += us.len();
+                    }
+                    DeltaRec::InsItems(_) => return Err("list change in a text delta".into()),
+                    DeltaRec::Del(n) => {
+                        let mut rem = *n as i64;
+                        while rem > 0 {
+                            if pos >= units.len() {
+                                return Err(format!("delete({}) runs past the end of the text the observer has", n));
+                            }
+                            rem -= ulen(&units[pos], ok) as i64;
+                            units.remove(pos);
+                        }
+                        if rem < 0 {
+                            return Err(format!("delete({}) ends inside a character", n));
+                        }
+                    }
+                    DeltaRec::Ret(n, a) => {
+                        let mut rem = *n as i64;
+                        while rem > 0 {
+                            if pos >= units.len() {
+                                return Err(format!("retain({}) runs past the end of the text the observer has", n));
+                            }
+                            rem -= ulen(&units[pos], ok) as i64;
+                            if let Some(ups) = a {
+                                for (k, v) in ups {
+                                    match v {
+                                        Some(v) => {
+                                            units[pos].attrs.insert(k.clone(), v.clone());
+                                        }
+                                        None => {
+                                            units[pos].attrs.remove(k);
+                                        }
+                                    }
+                                }
+                            }
+                            pos += 1;
+                        }
+                        if rem < 0 {
+                            return Err(format!("retain({}) ends inside a character", n));
+                        }
+                    }
+                }
+            }
+            apply_keys(attrs, &e.keys)
+        }
+        Shadow::Seq { items, attrs } => {
+            let mut pos = 0usize;
+            for d in e.delta.iter() {
+                match d {
+                    DeltaRec::InsItems(v) => {
+                        for (i, x) in v.iter().enumerate() {
+                            items.insert(pos + i, x.clone());
+                        }
+                        pos += v.len();
+                    }
+                    DeltaRec::Ins(_) => return Err("text insert in a list change".into()),
+                    DeltaRec::Del(n) => {
+                        if pos + *n as usize > items.len() {
+                            return Err(format!("removed({}) runs past the end of the list the observer has", n));
+                        }
+                        items.drain(pos..pos + *n as usize);
+                    }
+                    DeltaRec::Ret(n, _) => {
+                        pos += *n as usize;
+                        if pos > items.len() {
+                            return Err(format!("retain({}) runs past the end of the list the observer has", n));
+                        }
+                    }
+                }
+            }
+            apply_keys(attrs, &e.keys)
+        }
+        Shadow::Map { entries } => apply_keys(entries, &e.keys),
+    }
+}
+
+fn subscribe_type(doc: &yrs::Doc, tgt: &Tgt, kind: Kind, q: Arc<Mutex<Vec<EvRec>>>) -> Option<Subscription> {
+    let txn = doc.transact();
+    let ptr = ops::resolve(&txn, tgt, kind)?;
+    drop(txn);
+    let t = tgt.clone();
+    Some(match kind {
+        Kind::Text => TextRef::from(ptr).observe(move |txn, e| {
+            let rec = EvRec {
+                tgt: t.clone(),
+                delta: text_delta(txn, e.delta(txn)),
+                keys: vec![],
+            };
+            q.lock().unwrap().push(rec);
+        }),
+        Kind::XmlText => XmlTextRef::from(ptr).observe(move |txn, e| {
+            let rec = EvRec {
+                tgt: t.clone(),
+                delta: text_delta(txn, e.delta(txn)),
+                keys: key_recs(txn, e.keys(txn)),
+            };
+            q.lock().unwrap().push(rec);
+        }),
+        Kind::Array => ArrayRef::from(ptr).observe(move |txn, e| {
+            let rec = EvRec {
+                tgt: t.clone(),
+                delta: seq_delta(txn, e.delta(txn)),
+                keys: vec![],
+            };
+            q.lock().unwrap().push(rec);
+        }),
+        Kind::Map => MapRef::from(ptr).observe(move |txn, e| {
+            let rec = EvRec {
+                tgt: t.clone(),
+                delta: vec![],
+                keys: key_recs(txn, e.keys(txn)),
+            };
+            q.lock().unwrap().push(rec);
+        }),
+        Kind::XmlFragment => XmlFragmentRef::from(ptr).observe(move |txn, e| {
+            let rec = EvRec {
+                tgt: t.clone(),
+                delta: seq_delta(txn, e.delta(txn)),
+                keys: key_recs(txn, e.keys(txn)),
+            };
+            q.lock().unwrap().push(rec);
+        }),
+        Kind::XmlElement => XmlElementRef::from(ptr).observe(move |txn, e| {
+            let rec = EvRec {
+                tgt: t.clone(),
+                delta: seq_delta(txn, e.delta(txn)),
+                keys: key_recs(txn, e.keys(txn)),
+            };
+            q.lock().unwrap().push(rec);
+        }),
+    })
+}
+
+fn out_tgt(o: &Out) -> Option<Tgt> {
+    match o {
+        Out::YText(t) => Some(Tgt::from_branch_id(t.hook().id())),
+        Out::YArray(t) => Some(Tgt::from_branch_id(t.hook().id())),
+        Out::YMap(t) => Some(Tgt::from_branch_id(t.hook().id())),
+        Out::YXmlElement(t) => Some(Tgt::from_branch_id(t.hook().id())),
+        Out::YXmlFragment(t) => Some(Tgt::from_branch_id(t.hook().id())),
+        Out::YXmlText(t) => Some(Tgt::from_branch_id(t.hook().id())),
+        _ => None,
+    }
+}
+
+fn subscribe_deep(doc: &yrs::Doc, root: &str, kind: Kind, dq: Arc<Mutex<Vec<DeepRec>>>, calls: Arc<Mutex<Vec<Tgt>>>) -> Option<Subscription> {
+    let tgt = Tgt::R(root.to_string());
+    let txn = doc.transact();
+    let ptr = ops::resolve(&txn, &tgt, kind)?;
+    drop(txn);
+    let r = tgt.clone();
+    let f = move |_txn: &yrs::TransactionMut, es: &yrs::types::Events| {
+        calls.lock().unwrap().push(r.clone());
+        for e in es.iter() {
+            if let Some(t) = out_tgt(&e.target()) {
+                let path = e
+                    .path()
+                    .iter()
+                    .map(|s| match s {
+                        PathSegment::Key(k) => Ok(k.to_string()),
+                        PathSegment::Index(i) => Err(*i),
+                    })
+                    .collect();
+                dq.lock().unwrap().push(DeepRec {
+                    root: r.clone(),
+                    target: t,
+                    path,
+                });
+            }
+        }
+    };
+    Some(match kind {
+        Kind::Text => TextRef::from(ptr).observe_deep(f),
+        Kind::Array => ArrayRef::from(ptr).observe_deep(f),
+        Kind::Map => MapRef::from(ptr).observe_deep(f),
+        _ => XmlFragmentRef::from(ptr).observe_deep(f),
+    })
+}
+
+fn ensure_nodes(w: &mut World) {
+    if w.mon.events.nodes.len() == w.nodes.len() {
+        return;
+    }
+    w.mon.events.nodes.clear();
+    for n in 0..w.nodes.len() {
+        let mut en = EvNode::default();
+        let doc = w.nodes[n].doc.clone();
+        for (root, kind) in [
+            (dump::ROOT_TEXT, Kind::Text),
+            (dump::ROOT_ARRAY, Kind::Array),
+            (dump::ROOT_MAP, Kind::Map),
+            (dump::ROOT_XML, Kind::XmlFragment),
+        ] {
+            if let Some(s) = subscribe_deep(&doc, root, kind, en.deep.clone(), en.deep_calls.clone()) {
+                en.subs.push(s);
+            }
+        }
+        w.mon.events.nodes.push(en);
+    }
+    for n in 0..w.nodes.len() {
+        register_new(w, n);
+    }
+}
+
+/// observers are registered when a type first becomes visible
+fn register_new(w: &mut World, n: usize) {
+    let doc = w.nodes[n].doc.clone();
+    let types = ops::walk(&doc.transact());
+    for ti in types {
+        if w.mon.events.nodes[n].shadows.contains_key(&ti.tgt) {
+            continue;
+        }
+        let sh = {
+            let txn = doc.transact();
+            actual(&txn, &ti.tgt, ti.kind)
+        };
+        let Some(sh) = sh else { continue };
+        let q = w.mon.events.nodes[n].queue.clone();
+        if let Some(sub) = subscribe_type(&doc, &ti.tgt, ti.kind, q) {
+            w.mon.events.nodes[n].subs.push(sub);
+            w.mon.events.nodes[n].shadows.insert(ti.tgt.clone(), (ti.kind, sh));
+        }
+    }
+}
+
+pub fn pre_txn(w: &mut World, _n: usize) {
+    ensure_nodes(w);
+}
+
+fn resolve_path<T: ReadTxn>(txn: &T, root: &Tgt, path: &[Result<String, u32>], ok: OffsetKind) -> Option<Tgt> {
+    let (mut ptr, mut kind) = ops::resolve_any(txn, root)?;
+    for seg in path {
+        let next: Option<Out> = match (seg, kind) {
+            (Ok(k), Kind::Map) => MapRef::from(ptr).get(txn, k),
+            (Ok(k), Kind::XmlElement) => XmlElementRef::from(ptr).get_attribute(txn, k),
+            (Err(i), Kind::Array) => ArrayRef::from(ptr).get(txn, *i),
+            (Err(i), Kind::XmlFragment) | (Err(i), Kind::XmlElement) => XmlFragmentRef::from(ptr).get(txn, *i).map(|x| match x {
+                XmlOut::Element(e) => Out::YXmlElement(e),
+                XmlOut::Fragment(e) => Out::YXmlFragment(e),
+                XmlOut::Text(e) => Out::YXmlText(e),
+            }),
+            (Err(i), Kind::Text) | (Err(i), Kind::XmlText) => {
+                // an embedded shared type: the unit at that offset
+                use yrs::types::text::YChange;
+                use yrs::Text;
+                let t = TextRef::from(ptr);
+                let mut off = 0u32;
+                let mut found = None;
+                for d in t.diff(txn, YChange::identity) {
+                    match &d.insert {
+                        Out::Any(Any::String(s)) => {
+                            off += match ok {
+                                OffsetKind::Bytes => s.len() as u32,
+                                OffsetKind::Utf16 => s.encode_utf16().count() as u32,
+                            }
+                        }
+                        other => {
+                            if off == *i {
+                                found = Some(other.clone());
+                                break;
+                            }
+                            off += 1;
+                        }
+                    }
+                }
+                found
+            }
+            _ => None,
+        };
+        let o = next?;
+        let t = out_tgt(&o)?;
+        let (p, k) = ops::resolve_any(txn, &t)?;
+        ptr = p;
+        kind = k;
+    }
+    use yrs::branch::Branch;
+    let b: &Branch = &ptr;
+    Some(Tgt::from_branch_id(&b.id()))
+}
+
+pub fn post_txn(w: &mut World, n: usize, _kind: &TxnKind, _uid: Option<usize>) -> VResult {
+    ensure_nodes(w);
+    w.stats.oracle_evals += 1;
+    let ok = w.nodes[n].doc.offset_kind();
+    let events: Vec<EvRec> = std::mem::take(&mut *w.mon.events.nodes[n].queue.lock().unwrap());
+    let deep: Vec<DeepRec> = std::mem::take(&mut *w.mon.events.nodes[n].deep.lock().unwrap());
+    let deep_calls: Vec<Tgt> = std::mem::take(&mut *w.mon.events.nodes[n].deep_calls.lock().unwrap());
+    // each observer at most once per transaction
+    let mut seen: HashSet<Tgt> = HashSet::new();
+    for e in events.iter() {
+        if !seen.insert(e.tgt.clone()) {
+            return Err(viol(
+                "events.twice",
+                format!("node {}: the observer of {:?} fired more than once in one transaction", n, e.tgt),
+            ));
+        }
+    }
+    let mut dseen: HashSet<Tgt> = HashSet::new();
+    for r in deep_calls.iter() {
+        if !dseen.insert(r.clone()) {
+            return Err(viol(
+                "events.twice",
+                format!("node {}: the deep observer of {:?} fired more than once in one transaction", n, r),
+            ));
+        }
+    }
+    // apply the scripts to the shadows
+    let mut softs: Vec<Violation> = Vec::new();
+    for e in events.iter() {
+        let Some((_, sh)) = w.mon.events.nodes[n].shadows.get_mut(&e.tgt) else { continue };
+        let before = sh.clone();
+        if let Err(msg) = apply_event(sh, e, ok) {
+            return Err(viol(
+                "events.shadow",
+                format!("node {}: the script reported for {:?} does not apply to the content its observer has seen: {}\n  script: {:?} keys {:?}\n  seen  : {:?}", n, e.tgt, msg, e.delta, e.keys, before),
+            ));
+        }
+        if *sh == before {
+            w.probe("events.no-effect-script");
+            // known finding F6 is identified by the script being completely empty
+            let empty = e.delta.is_empty() && e.keys.is_empty();
+            // F6b: the script only retains (with attribute updates that change nothing)
+            let noop_retain = !empty && e.keys.is_empty() && e.delta.iter().all(|d| matches!(d, DeltaRec::Ret(_, _)));
+            let v = viol(
+                if empty {
+                    "events.no-change-empty-script"
+                } else if noop_retain {
+                    "events.no-change-noop-retain-script"
+                } else {
+                    "events.no-change"
+                },
+                format!(
+                    "node {}: {:?} fired an event although its content did not change (script {:?}, keys {:?})",
+                    n, e.tgt, e.delta, e.keys
+                ),
+            );
+            if empty || noop_retain {
+                // soft: recorded, the run goes on (the world is intact)
+                softs.push(v);
+                continue;
+            }
+            return Err(v);
+        }
+    }
+    for mut v in softs {
+        if w.soft.len() < 4 {
+            v.at_eid = w.cur_eid;
+            w.soft.push(v);
+        }
+    }
+    // compare every observed live type with the read API
+    let doc = w.nodes[n].doc.clone();
+    let txn = doc.transact();
+    let mut dead = Vec::new();
+    for (tgt, (kind, sh)) in w.mon.events.nodes[n].shadows.iter() {
+        match actual(&txn, tgt, *kind) {
+            None => dead.push(tgt.clone()),
+            Some(a) => {
+                if &a != sh {
+                    let fired = events.iter().any(|e| &e.tgt == tgt);
+                    return Err(viol(
+                        if fired { "events.shadow" } else { "events.missing" },
+                        format!(
+                            "node {}: {:?} — the copy maintained only from its change events differs from what the read API shows ({})\n  from events: {:?}\n  read API   : {:?}\n  script     : {:?}",
+                            n,
+                            tgt,
+                            if fired { "an event fired in this transaction" } else { "no event fired in this transaction" },
+                            sh,
+                            a,
+                            events.iter().find(|e| &e.tgt == tgt).map(|e| (&e.delta, &e.keys))
+                        ),
+                    ));
+                }
+            }
+        }
+    }
+    // deep observers: paths lead to the targets; all changed descendants are reported
+    for d in deep.iter() {
+        if ops::resolve_any(&txn, &d.target).is_none() {
+            continue; // deleted in this very transaction
+        }
+        w.stats.closed_checks += 1;
+        match resolve_path(&txn, &d.root, &d.path, ok) {
+            Some(t) if t == d.target => {}
+            other => {
+                // known finding F22 is identified by the path being right in UTF-16 units while
+                // the document counts in bytes
+                let utf16_ok = ok == OffsetKind::Bytes && resolve_path(&txn, &d.root, &d.path, OffsetKind::Utf16).as_ref() == Some(&d.target);
+                return Err(viol(
+                    if utf16_ok { "events.path-utf16-in-bytes-doc" } else { "events.path" },
+                    format!(
+                        "node {}: deep observer of {:?} got an event for {:?} with path {:?}, which leads to {:?}",
+                        n, d.root, d.target, d.path, other
+                    ),
+                ))
+            }
+        }
+    }
+    for e in events.iter() {
+        if ops::resolve_any(&txn, &e.tgt).is_none() {
+            continue;
+        }
+        // which root is it under? found by asking every deep record
+        if !deep.iter().any(|d| d.target == e.tgt) {
+            return Err(viol(
+                "events.deep-missing",
+                format!("node {}: {:?} fired a change event but no deep observer of a root received it", n, e.tgt),
+            ));
+        }
+    }
+    drop(txn);
+    for t in dead {
+        w.mon.events.nodes[n].shadows.remove(&t);
+    }
+    register_new(w, n);
     Ok(())
 }
+
+pub fn at_quiescence(w: &mut World) -> VResult {
+    crate::monitors::check_closed_as(w, 0, "events")
+}
+
 pub fn draw(_w: &mut World) -> Option<Ev> {
     None
 }
+
 pub fn exec(_w: &mut World, _n: usize, _k: &str, _a: &[u64], _s: &[String]) -> VResult {
     Ok(())
 }
